@@ -1347,7 +1347,9 @@ fn resolve_types_and_aliases(
     while pass_count < max_passes && !(types.is_resolved() && aliases.is_resolved()) {
         pass_count += 1;
 
-        let scope = Rc::get_mut(scope_rc).expect("scope should be unique during resolution");
+        // nodes analyzed earlier (property accesses in asset or policy definitions) may hold
+        // references to the program scope, so shadow it instead of mutating it in place
+        let mut scope = Scope::new(Some(scope_rc.clone()));
 
         for type_def in types.iter() {
             scope.track_type_def(type_def);
@@ -1355,6 +1357,8 @@ fn resolve_types_and_aliases(
         for alias_def in aliases.iter() {
             scope.track_alias_def(alias_def);
         }
+
+        *scope_rc = Rc::new(scope);
 
         types_report = types.analyze(Some(scope_rc.clone()));
         aliases_report = aliases.analyze(Some(scope_rc.clone()));
